@@ -7,6 +7,9 @@ bind : state injection on disk: after every production compaction the harness ch
        are ordered and disjoint, that levelsController.validate() passes, that the MANIFEST's table->level
        map equals the live tables and that every table file exists; then the DB is closed and re-opened
        (Open's revertToManifest + validate must succeed) and the layout must be unchanged.
+conc : specs/lsm/Compactors.tla (capture / fill / finish of several compactors, compactStatus, level targets):
+       InputsDisjoint, OutputSafe, Disjoint, StatusExact model-checked; recorded concurrent production compactions
+       (csreplay, gate compact.beforeManifest) validated step by step by TLC (CompactorsTrace.tla).
        The crash side of C14 (MANIFEST vs directory after recovery) is asserted inside C08/C10/C29 runs."""
 import os, sys, random
 sys.path.insert(0, os.path.dirname(os.path.abspath(__file__)))
@@ -39,6 +42,9 @@ def body(c):
     n = 160 if q else 5000
     sel = cases[:n] + c2[:n // 4] + c3[:n // 2]
     L.replay(c, "C14", sel, "state injection on disk (MANIFEST, files, validate, reopen)", inmem=False)
+    # concurrently running compactions: compactStatus keeps inputs and outputs apart
+    L.compactors_mc(c, q, sensitivity=False)
+    L.compactors_traces(c, "C14", 24 if q else 600, scenario=False)
     multi = set(L.shape_key(x) for x in sel if sum(len(l) for l in x["pre"]["lv"]) >= 1)
     c.add_cases(len(sel), multi, traces=len(sel))
     c.cov["rule"] = ("a case = one compaction transition of LSM.tla replayed on disk; non-trivial = the pre-layout has at "
